@@ -59,7 +59,7 @@ CHECKS = [
           "slice over reaching definitions and in-place updates); kernel options hard-wired by an op (order=) equal NumPy's defaults; Python scalars must reach the kernel unconverted (fails today: known finding D6)." + NOT_DECIDED + "equality of values/dtypes in general "
           "(NumPy's run-time semantics); 0-d/empty/non-contiguous corner cases.", "note": NOTE},
  {"property_id": "C16", "technique": "static: keyword/typestate check of as_strided, ancestor/dominance ordering of validation vs striding, sympy term comparison of caller/callee extent polynomials",
-  "text": "Narrow claim. Decides: the window view is created read-only; every raising guard of sliding_window_view precedes the striding and strides are read after the contiguity normalisation; the layers' "
+  "text": "Narrow claim. Decides: the window view is created read-only; every raising guard of sliding_window_view and the C-contiguity normalisation precede the striding; the layers' "
           "output-size checks dominate window creation; the dilated extent a layer accepts equals the one sliding_window_view enforces (ConvND fails: known finding D7) and the guard is at least as strict as "
           "the placement formula (no out-of-bounds placement)." + NOT_DECIDED + "everything numeric: the window equation, conv/pool/batchnorm/gru/softmax/loss formulas.", "note": NOTE},
  {"property_id": "C04", "technique": "static: ownership/alias abstract interpretation of every op's forward pass vs its can_return_view flag; sibling agreement of in-place spellings; def-use shape of base assignment and mirroring",
@@ -90,3 +90,26 @@ NOT_APPLICABLE = [
  {"property_id": f"C{i:02d}", "reason": "structural clauses designed (DESIGN.md §6) but the rules are not implemented yet in this commit"}
  for i in range(1, 19) if f"C{i:02d}" not in _BUILT
 ]
+
+# Clauses added with the second round of seeded changes and the defects D11-D17 (inserted before the "Not decided" part)
+ADDENDA = {
+ "C01": "Also: hand-written accumulation helpers (gru._backprop) accumulate and never overwrite; ops overriding backward() reach the generic loop on every path or serve every variable.",
+ "C03": "Also: Tensor.__array_ufunc__ evaluates forwarded ufuncs through getattr(ufunc, method) (outer/reduce/accumulate honoured).",
+ "C04": "Also: a wholesale rebuild of a _view_children list maps the same tensor's own children (D15, repaired).",
+ "C05": "Also: building the placeholder graph leaves the originals untouched; dtype-kind tests (integer-array index detection of SetItem/GetItem) name abstract scalar classes, never one width (D16, repaired).",
+ "C06": "Also: any copy made of the first contribution keeps the producer's layout (np.copy / order='K').",
+ "C07": "Also: before a placeholder graph is built, in every function that builds one (_in_place_op and the .shape setter), the gradient of the target and of the base that owns the memory is nulled (D13/D14, repaired); a stale base is dropped for view and non-view ops alike; the public null_grad() touches view information only for internal callers.",
+ "C09": "Also: an op that overrides backward() still passes the guard (super().backward on every path, or its own test); Tensor.backward clears the graph only on its normal continuation (never in finally/except), so a failed back-propagation fails again.",
+ "C10": "Also: value stores to the cached view gradient (_view_grad) carry the same obligation (D17, repaired); no function accepts `constant` without using it.",
+ "C11": "Also: np.sign belongs to the refusing family; forwarded ufuncs are evaluated as getattr(ufunc, method).",
+ "C14": "Also: the caller's seed enters only through asarray(...); a rejected seed does not clear the graph; array-ness dataflow: between np.asarray and the store no step (array arithmetic, ufunc call, reduction, unknown call) can turn a 0-d array back into a NumPy scalar (D12, repaired).",
+ "C15": "Also: the untracked in-place path forwards op, operands, op_args, op_kwargs and constant; module initialisation leaves both switches literal booleans on every path.",
+ "C16": "Also: strides are derived from shape x itemsize only, never from arr.strides (D11, repaired); window_shape/step/dilation entries are tested strictly positive before use; running max/min accumulators in nnet code start from the identity; no forward pass narrows an operand to a sibling operand's dtype.",
+ "C17": "Also: creation routines hand their parameters to NumPy as the caller gave them (no rebinding other than unwrapping a Tensor).",
+}
+for _c in CHECKS:
+    _a = ADDENDA.get(_c["property_id"])
+    if _a and NOT_DECIDED in _c["text"]:
+        _c["text"] = _c["text"].replace(NOT_DECIDED, " " + _a + NOT_DECIDED, 1)
+    elif _a:
+        _c["text"] += " " + _a
